@@ -67,7 +67,7 @@ CROSSING = {
     'quick': 'signature strings(<=2) x 12 placements: [34 forms x {utf-8, utf-8-sig, utf-16} x write_header on/off on MemorySource] + '
              '[2 default forms x 8 codec spellings x 4 kinds x 2 flag combinations] + [2 default forms x 8 spellings x reader '
              'errors in {replace, ignore}]; hostile strings(<=2) x 12 placements: [34 call forms on MemorySource/utf-8] + [2 default forms x 5 codecs x 4 target '
-             'kinds x 4 header-flag combinations]; line-boundary strings(<=2) x 12 placements: [34 forms on MemorySource/utf-8] + '
+             'kinds x 2 header-flag combinations (write_header, header= both default / both flipped)]; line-boundary strings(<=2) x 12 placements: [34 forms on MemorySource/utf-8] + '
              '[2 default forms x 5 codecs x 4 kinds]; 2x2 grids: 2 default forms on MemorySource/utf-8; typed/ragged tables: '
              '34 forms x 4 flag combinations on MemorySource/utf-8; append: 39 sequences x all write_header flags x 2 '
              'dialects x 7 codecs x 4 target kinds + all 32 explicit dialects (utf-8); append with hostile strings(<=2) in the '
@@ -660,7 +660,7 @@ def _cfgs_A(name):
         return [(fn, d, 'mem', 'utf-8', True, None) for fn, d in FORMS]
     if name == 'env':
         return [(fn, d, kind, enc, wh, hdr) for fn, d in FORMS[:2] for enc in ENCS for kind in KINDS
-                for wh, hdr in FLAGS]
+                for wh, hdr in (FLAGS[0], FLAGS[3])]
     if name == 'envlite':
         return [(fn, d, kind, enc, True, None) for fn, d in FORMS[:2] for enc in ENCS for kind in KINDS]
     if name == 'full':
